@@ -15,7 +15,8 @@ C27 checker.  Ops (strings hex-encoded):
 
   `hconf <specs>` / `hupdate <specs>` / `hfire <self> <selftags> <ev>`
         one reloadable ScriptEventHandler per case: configure (Config.EventScripts), reload
-        (UpdateScripts, also to the empty list `_`), fire an event → `ran=<id:count,…|->`;
+        (UpdateScripts, also to the empty list `_`), fire an event while SelfFunc answers <self>/<selftags> → `ran=<id:count,…|-> env=<hex|->`
+        (env = the SERF_* variables of the first script that ran);
         specs = `_` or `id:filterhex,…`, script `id` records its runs.
 
   `<ev>` = `mj|ml|mf|mu|mr/<member>+<member>…` with member = `name~addr~tags` (addr `a.b.c.d` or `nil`,
@@ -157,6 +158,8 @@ structure St where
   hs : Option HandlerState := none
   /-- monitor's own bookkeeping: the specs given LAST (by `hconf` or `hupdate`), per script id -/
   lastSpecs : List (Nat × List (Filter × Bytes)) := []
+  /-- monitor's own bookkeeping: what `SelfFunc` answered at earlier `hfire`s of this case -/
+  prevSelves : List (Bytes × Tags) := []
   deriving Inhabited
 
 /-- `_` or `id:filterhex,…` (`!` = a spec without `=`); the script of id `i` is the text `i` -/
@@ -170,6 +173,8 @@ def parseIdSpecs (sp : String) : Option (List (Nat × List (Filter × Bytes))) :
         else (bytesOfHex? f).map fun fb => (id, parseEventScript (fb ++ EQ :: script))
       | none => none
     | _ => none
+
+def sameTagSet (a c : Tags) : Bool := a.all c.contains && c.all a.contains
 
 def ranOf (ran : List (Nat × Nat)) (id : Nat) : Nat := ((ran.find? (·.1 == id)).map (·.2)).getD 0
 
@@ -313,11 +318,11 @@ def step (s : St) (op : List String) (impl : String) : LineOut St :=
     | _, _, _, _, _, _, _, _ => { state := s, model := some "bad-op" }
   | ["hconf", sp] =>
     match parseIdSpecs sp with
-    | some specs => { state := { hs := some ⟨specs.flatMap (·.2), none⟩, lastSpecs := specs }, model := some "ok" }
+    | some specs => { state := { s with hs := some ⟨specs.flatMap (·.2), none⟩, lastSpecs := specs }, model := some "ok" }
     | none => { state := s, model := some "bad-op" }
   | ["hupdate", sp] =>
     match s.hs, parseIdSpecs sp with
-    | some h, some specs => { state := { hs := some (updateScripts h (specs.flatMap (·.2))), lastSpecs := specs }, model := some "ok" }
+    | some h, some specs => { state := { s with hs := some (updateScripts h (specs.flatMap (·.2))), lastSpecs := specs }, model := some "ok" }
     | _, _ => { state := s, model := some "bad-op" }
   | ["hfire", self, selftags, e] =>
     match s.hs, bytesOfHex? self, parseTags selftags, parseEvent e 0 with
@@ -329,9 +334,34 @@ def step (s : St) (op : List String) (impl : String) : LineOut St :=
         (l.eraseDups.map fun i => (i, l.count i))
       let sortIds (l : List (Nat × Nat)) : List (Nat × Nat) :=
         l.foldr (fun x acc => (acc.filter (·.1 < x.1)) ++ x :: (acc.filter (fun y => !(y.1 < x.1)))) []
-      let model := "ran=" ++ showRan (sortIds (count ids))
+      -- the scripts' environment: a function of what SelfFunc answers NOW
+      let implEnv : Option Bytes := ((impl.splitOn " ").findSome? (field? "env=")).bind bytesOfHex?
+      let model := "ran=" ++ showRan (sortIds (count ids)) ++ " env=" ++ (if started.isEmpty then "-" else showEnv env implEnv)
+      let envMon : Option (String × String) :=
+        match implEnv with
+        | none => none
+        | some ib =>
+          if ib.isEmpty then none else
+          let entries := splitOn 0 ib
+          let role := lookupB selfTags roleB
+          let wantFixed := [b "SERF_SELF_NAME=" ++ selfName, b "SERF_SELF_ROLE=" ++ role]
+          let simple (k : Bytes) : Bool := !k.isEmpty && k.all fun c => (97 ≤ c && c ≤ 122) || (65 ≤ c && c ≤ 90) || (48 ≤ c && c ≤ 57) || c == 95
+          let upper (k : Bytes) : Bytes := k.map fun c => if 97 ≤ c && c ≤ 122 then c - 32 else c
+          let distinct := ((selfTags.map fun p => sanName p.1).eraseDups).length == selfTags.length
+          let wantTags := if distinct then (selfTags.filter fun p => simple p.1 && !p.2.contains 0).map fun p => b "SERF_TAG_" ++ upper p.1 ++ EQ :: p.2 else []
+          let tagVars := (entries.filter fun en => (b "SERF_TAG_").isPrefixOf en).length
+          let bad := (wantFixed ++ wantTags).find? fun w => !entries.contains w
+          let badCount := tagVars != ((selfTags.map fun p => sanName p.1).eraseDups).length
+          if bad.isNone && !badCount then none else
+          -- explained by an EARLIER answer of SelfFunc?
+          let stale := s.prevSelves.any fun ps =>
+            entries.contains (b "SERF_SELF_NAME=" ++ ps.1) && entries.contains (b "SERF_SELF_ROLE=" ++ lookupB ps.2 roleB) &&
+            ((ps.2.filter fun p => simple p.1 && !p.2.contains 0).all fun p => entries.contains (b "SERF_TAG_" ++ upper p.1 ++ EQ :: p.2)) &&
+            (ps.1 != selfName || !(sameTagSet ps.2 selfTags))
+          if stale then some ("env-self-stale", s!"the script ran with the name/role/tags SelfFunc reported at an EARLIER event, not the current ones (name {hx selfName}, role {hx role}, {selfTags.length} tags)")
+          else some ("env-self", s!"the script's SERF_SELF_* / SERF_TAG_* variables do not match SelfFunc's current answer (name {hx selfName}, role {hx role}, {selfTags.length} tags)")
       -- monitor: only ids of the specs given last may run, each as often as its entries match
-      let mon : Option (String × String) := match (field? "ran=" impl).bind parseRan with
+      let mon : Option (String × String) := match ((impl.splitOn " ").findSome? (field? "ran=")).bind parseRan with
         | none => some ("malformed", impl)
         | some ran =>
           match ran.find? (fun p => p.2 > 0 && !(s.lastSpecs.any (·.1 == p.1))) with
@@ -341,7 +371,10 @@ def step (s : St) (op : List String) (impl : String) : LineOut St :=
             else match s.lastSpecs.find? (fun sp => ranOf ran sp.1 != (sp.2.filter fun en => matchesDoc en.1 event).length) with
               | some sp => some ("runs-wrong", s!"script {sp.1} ran {ranOf ran sp.1} time(s), the handler list given last has {(sp.2.filter fun en => matchesDoc en.1 event).length} matching entries")
               | none => none
-      { state := { s with hs := some h' }, model := some model, monitor := mon }
+      let mon := match mon with
+        | some m => some m
+        | none => envMon
+      { state := { s with hs := some h', prevSelves := (selfName, selfTags) :: s.prevSelves }, model := some model, monitor := mon }
     | _, _, _, _ => { state := s, model := some "bad-op" }
   | _ => { state := s, model := some "bad-op" }
 
